@@ -5,6 +5,22 @@ package udphop
 // that hands out vnet sockets (census of every socket ever created), under the controlled
 // scheduler. The hop timer is the virtual clock; whether a listen fails, which port index is
 // drawn at a hop and the jitter draw are environment choices.
+//
+// Harness notes (false alarms fixed in the harness, oracle decisions):
+//   - unit ports: the first version built no literal range list for "all"/"*" and reported
+//     Normalize(literal) as wrong for the wildcards - harness bug, fixed (c19Reference).
+//   - a packet that arrived on a socket is required to be delivered only while that socket is
+//     still the current or the previous one at the next quiescent point and no Close intervened:
+//     a hop landing (as a scheduling deviation) between arrival and the recvLoop's read closes the
+//     socket with the datagram still in its buffer - ordinary UDP loss, covered by "until the
+//     next hop".
+//   - "at most two open between hops" is checked as: at every quiescent point (every other
+//     thread blocked, hence the hop loop parked on its timer) exactly the newest two sockets
+//     ever created are open; a failed listen creates nothing, so "changes nothing" is the same
+//     check. Inside a hop (at socket creation) at most 3.
+//   - hop-port and jitter draws are KEnv choices (cost E) except in hop-draws-range-3ports where
+//     they are free and every draw sequence is enumerated.
+//   - timeouts queued before Close count as "queued before Close" results of ReadFrom.
 
 import (
 	"errors"
@@ -327,7 +343,7 @@ func (w *c19World) afterClose() {
 }
 
 // c19GateGoroutineLeak: VERIF_C19_GATE_LEAK=1 turns the goroutine-leak observation of the
-// transport-close scenarios (see FINDINGS.md) into a reported violation.
+// transport-close scenarios (see c19TransportCloseScenario) into a reported violation.
 func c19GateGoroutineLeak() bool { return os.Getenv("VERIF_C19_GATE_LEAK") == "1" }
 
 func c19Body(cfg *c19Cfg) func(e *vsched.Exec) {
@@ -525,9 +541,32 @@ func c19Scenarios() []*explore.Scenario {
 
 // c19TransportCloseScenario: one hop, then the shutdown sequence of quic-go's Transport.Close
 // (read deadline := now until the read loop has stopped, then cleared) and Close. Everything
-// the property states is gated as in the other scenarios; conn goroutines that stay blocked for
-// ever after Close are recorded as an observation (FINDINGS.md), gated only with
-// VERIF_C19_GATE_LEAK=1.
+// the property states is gated as in the other scenarios.
+//
+// OBSERVATION (candidate finding, NOT claimed under C19, not gated unless VERIF_C19_GATE_LEAK=1):
+// in the default schedule, at the real packetQueueSize=1024 as well as scaled, a recvLoop
+// goroutine stays blocked for ever after Close:
+//  1. one hop -> sockets s0 (previous), s1 (current), two recvLoops, a reader in ReadFrom;
+//  2. the owner shuts down like core/client/client.go clientImpl.Close: tr.Close() - quic-go
+//     Transport.Close on a conn it did not create (transport.go:490-496) calls
+//     conn.SetReadDeadline(time.Now()), waits for its read loop, then SetReadDeadline(zero) -
+//     followed by pktConn.Close();
+//  3. with the deadline in the past conn.ReadFrom in recvLoop (conn.go:126) returns a timeout
+//     immediately, every time; recvLoop treats timeouts as non-fatal (conn.go:127-136):
+//     `u.recvQueue <- &udpPacket{nil, 0, nil, netErr}; continue` - a BLOCKING send in a loop that
+//     no longer blocks in ReadFrom: it spins until the queue is full, then blocks in the send
+//     (log line "transport closed: queued=1024");
+//  4. the reader sees one timeout and stops, the deadline is cleared, Close (conn.go:256) closes
+//     both sockets and closeChan;
+//  5. recvLoop is blocked in the channel send, not in ReadFrom: closing its socket does not wake
+//     it, the send has no closeChan arm, nobody reads recvQueue any more -> the goroutine (and
+//     its buffer, and the queue) is never released; one or two per closed client connection.
+// Under the Go scheduler the past-deadline window lasts two goroutine hand-offs; the queue fills
+// only if recvLoop gets ~1000 iterations (0.1-0.3 ms CPU) inside it - plausible under load.
+// Every socket IS closed and reads/writes DO fail, which is all C19 states ("leaks no sockets"),
+// hence an observation: the execution log carries "OBSERVATION goroutines of the conn blocked
+// for ever after Close: T1(conn.go:106): chan send" and the scenario has LeakOK=true.
+// A send with a `case <-u.closeChan: return` arm would remove it.
 func c19TransportCloseScenario(name string, quick, thorough explore.Bounds) *explore.Scenario {
 	c := &c19Cfg{name: name, portExpr: "20000-20001", iv: HopIntervalConfig{Min: 5 * time.Second, Max: 5 * time.Second},
 		window: 5500 * time.Millisecond, windows: 1, reader: true, transportClose: true,
